@@ -180,6 +180,65 @@ func checkDefs() map[string]*CheckDef {
 			LevelNote: "Bounds: literal parts <=1 byte, values <=2 (3) bytes, letter-only defaults <=2 bytes (number-like, boolean-like, quoted and bracketed defaults are re-formatted by ParseAny/FormatAny, see C17), arbitrary tags <=5 (6) bytes with plain configured values. regexp is a Go-source model of the two placeholder patterns validated against the real regexp; non-string configured scalars and JSON-shaped values are outside.",
 			Technique: techDefault, DesignRef: "DESIGN.md §3 C16"},
 	)
+	rhc := func(name, entry string, p map[string]int, cover ...string) RunSpec {
+		r := rh(name, entry, p, cover...)
+		r.Opts.PermutePerCall = true
+		return r
+	}
+	defs = append(defs,
+		&CheckDef{ID: "C06", Title: "Type-directed injection",
+			Runs: func(tier string) []RunSpec {
+				return []RunSpec{rh("types", "VerifC06", map[string]int{"K": tierPick(tier, 2, 3), "PORDER": tierPick(tier, 1, 0)}, "start ok", "start failed", "several candidates")}
+			},
+			LevelText: "Bounded symbolic model checking of the real dependencyAware/dependencyFunctionAware/dependencyFurtherMatching processors (sequenced by the real SortOrderedComponents), container.Type/InterfaceType/FuncName, defaultDefinitionRegistry.GetMetas (enumeration order = symbolic permutation), the real tag scanner and populateComponent/Inject: for every population of up to K providers over a universe of four provider types and eight consumer field kinds (*T, I, []*T, []I, any, func-tag slice, and holders that are themselves candidates), the injected set equals an order-free specification written from static facts about the types.",
+			LevelNote: "Reduced claim: types are program text, so the type universe is fixed (4 provider types incl. a 'merely similar' pointer type, 8 field kinds); K<=2 (thorough 3); func tag only without returns=. The reflect model is validated by native replay of sampled paths.",
+			Technique: techDefault, DesignRef: "DESIGN.md §3 C06"},
+		&CheckDef{ID: "C07", Title: "Injection by name",
+			Runs: func(tier string) []RunSpec {
+				return []RunSpec{
+					{Name: "register", Pkg: fac, Entry: "VerifC07Register", Params: map[string]int{"K": 3, "L": tierPick(tier, 1, 2)}, MustCover: []string{"duplicate rejected"}, Opts: ExecOpts{PermuteRange: true}},
+					rh("by-name", "VerifC07", map[string]int{"K": tierPick(tier, 2, 3)}, "named component found", "named component has an incompatible type", "optional point, no such component"),
+				}
+			},
+			LevelText: "Bounded symbolic model checking of the by-name branch of dependencyAware, GetMetaByName, the real SingletonRegistry.RegisterSingleton/GetComponentName (names as symbolic bytes), furtherMatching and Inject: the field receives exactly the component registered under the requested name, an absent or incompatible name is an error for a required point and leaves an optional point untouched (never a panic), two distinct components are never both retrievable under one name.",
+			LevelNote: "Bounds: <=3 providers, registration names <=1 (2) symbolic bytes, field kinds *T / interface / any; requested name ranges over provider names, the holder's own name and an absent name.",
+			Technique: techDefault, DesignRef: "DESIGN.md §3 C07"},
+		&CheckDef{ID: "C08", Title: "Qualifier and Primary narrowing",
+			Runs: func(tier string) []RunSpec {
+				return []RunSpec{rh("fields", "VerifC08", map[string]int{"K": 2, "SHAPES": 4, "NQ": tierPick(tier, 1, 2), "PORDER": 0}, "start ok", "start failed", "unique primary", "unique unnamed")}
+			},
+			LevelText: "Bounded symbolic model checking of the real furtherMatching processor (filterDependencies), TagArg.Has/Find and the by-type processors on holders with 2-3 wire fields (single, slice, an optional field without any candidate placed first): qualifiers of candidates and requested qualifier sets are symbolic bytes, primary/unnamed/named attributes and required bits are explored; each field is checked against an order-free per-field specification (only qualifying candidates, unique Primary wins, else unique unnamed, ties only inside the top rank).",
+			LevelNote: "Bounds: 2 candidates over {*vPA, *vPC, *vPP}, four holder shapes, requested set <=1 (2) one-byte qualifiers. Qualifier arguments are set through Property.SetArg (the tag grammar itself is C19).",
+			Technique: techDefault, DesignRef: "DESIGN.md §3 C08"},
+		&CheckDef{ID: "C09", Title: "Clean failures",
+			Runs: func(tier string) []RunSpec {
+				return []RunSpec{
+					mc("callback-faults-n2", "VerifC09MC", map[string]int{"N": 2, "POINTS": 5, "FAULTS": 2}, "fault injected"),
+					mc("callback-faults-n3", "VerifC09MC", map[string]int{"N": 3, "POINTS": 1, "FAULTS": tierPick(tier, 1, 2)}, "fault injected"),
+					mc("required-points", "VerifC02", map[string]int{"N": 2, "POINTS": 5}, "start failed"),
+					rh("required-vs-optional-by-type", "VerifC06", map[string]int{"K": 1}, "start failed", "start ok"),
+					rh("required-vs-optional-by-name", "VerifC07", map[string]int{"K": 2}, "optional point, no such component"),
+					{Name: "run-phases-and-runners", Pkg: app, Entry: "VerifC13", Params: map[string]int{"N": 2, "FAULTS": 1}, MustCover: []string{"start-up fault", "runner failed"}},
+					{Name: "loaders", Pkg: ioc + "/configure", Entry: "VerifC15Load", Params: map[string]int{"N": 3}, MustCover: []string{"loader failed"}},
+				}
+			},
+			LevelText: "Bounded symbolic model checking of three harness groups, faults injected one at a time and in pairs as solver-chosen bits: (1) every AfterPropertiesSet/Init/post-processor callback of the real factory fails on demand -> Refresh returns an error, never panics, ends within the step budget; (2) required vs optional wire points with present/absent candidates through the real resolution processors -> error iff a required point is unsatisfied, optional points stay at their zero value, no panic escapes; (3) the real App.run with failing configuration/prepare/refresh phases, loaders and runners -> run returns an error and no runner is invoked.",
+			LevelNote: "The composition into a statement about App.Run (options; initiate; run) is an informal assume-guarantee argument (DESIGN.md §3 C09), not machine-checked. Required configuration values (value/prefix/prop) are covered by the C17 harness runs.",
+			Technique: techDefault + "; fault bits as symbolic variables", DesignRef: "DESIGN.md §3 C09"},
+		&CheckDef{ID: "C10", Title: "Order independence",
+			Runs: func(tier string) []RunSpec {
+				return []RunSpec{
+					rhc("by-type", "VerifC06", map[string]int{"K": 2, "PORDER": 1}, "start ok", "several candidates"),
+					rhc("by-name", "VerifC07", map[string]int{"K": 2}, "named component found"),
+					rh("qualified", "VerifC08", map[string]int{"K": 2, "SHAPES": tierPick(tier, 2, 4), "NQ": 1, "PORDER": 1}, "unique primary", "unique unnamed"),
+					mc("creation-order", "VerifC10MC", map[string]int{"N": 2, "POINTS": tierPick(tier, 5, 7)}, "start ok", "start failed"),
+					mc("creation-order-n3", "VerifC10MC", map[string]int{"N": 3, "POINTS": 1}, "start ok", "start failed"),
+				}
+			},
+			LevelText: "Bounded symbolic model checking with the iteration order of sync.Map.Range and Go map range as symbolic permutations (fresh per call), the registration order of components and of the post-processors permuted: every outcome is compared with the order-free specifications of C06-C08 (success/failure, and the winner whenever the candidates are not genuinely tied; ties only inside the top-ranked set); a cyclic graph with a wrapped component is started twice in one path (canonical order vs permuted) and success and wiring must agree.",
+			LevelNote: "Bounds as C06-C08 (<=3 registry entries, i.e. 3! orders per enumeration) and n<=2 (3) for creation order. Ties between post-processors of equal Order (sort.Slice is not stable) commute by reading (disjoint tags), not by the solver. Goroutine schedules of the scanning phase only influence insertion order, which is arbitrary here; data races are C20.",
+			Technique: techDefault + "; iteration orders as symbolic permutations; two-run relational check", DesignRef: "DESIGN.md §3 C10"},
+	)
 	m := map[string]*CheckDef{}
 	for _, d := range defs {
 		m[d.ID] = d
